@@ -83,6 +83,7 @@ type GenOpts struct {
 	ForceAllCons int  // 0 draw, 1 all considered, 2 proper subset when possible
 	GainOnly     bool
 	FixedOrder   bool // heuristics: never random ordering
+	NoMinMax     bool // omission / reversal without min and max (valid whatever the current criteria count is)
 }
 
 // value modes
@@ -609,6 +610,18 @@ func (s *genState) splitProps(p M, n, limit int) int {
 	p["ratio"] = ratio
 	k := int(math.Floor(float64(n) * ratio))
 	mn, mx := 0, math.MaxInt32
+	if s.o.NoMinMax {
+		if ratio >= 1 && limit < n {
+			ratio = 0.5
+			p["ratio"] = ratio
+			k = int(math.Floor(float64(n) * ratio))
+		}
+		if g.Chance(4, 5) {
+			p["ordering"] = g.Pick(orderings...)
+		}
+		p["randomSeed"] = g.Seed()
+		return k
+	}
 	if g.Chance(1, 3) {
 		mn = g.Int(0, limit)
 		p["min"] = mn
